@@ -88,4 +88,31 @@ example :
     revert this
     decide
 
+/-! ### profiles: "each profile holds its loading strategy's demand" is FALSE of the model (finding) -/
+
+def cxLoad : Strategy := ⟨9, false, 1, 5, [(⟨"GPU", none⟩, 1)]⟩
+
+/-- One pool with one two-GPU worker, no task graph; the first scheduler answer loads profile 5 twice. -/
+def cxWorld2 : SimS :=
+  { flags := { loopTimeout := 1000 }, jobs := #[], allGraphs := #[], allMeta := #[],
+    pools := #[⟨[Worker.ofVec [(⟨"GPU", some 1⟩, 2)]], []⟩], poolNames := #["pool"], tape := [],
+    decisions := [⟨[{ kind := .load, task := ⟨0, 0⟩, profile := 5, time := some 1, pool := some 0, worker := some 0,
+                      strat := some cxLoad },
+                    { kind := .load, task := ⟨0, 0⟩, profile := 5, time := some 1, pool := some 0, worker := some 0,
+                      strat := some cxLoad }], 1, none⟩] }
+
+set_option maxRecDepth 100000 in
+/-- **COUNTEREXAMPLE (finding): a profile can hold twice its loading strategy's demand.** After 8
+iterations of the `simulate()` loop (a loop head) of a run from a well-formed world, profile 5 is
+loading with a strategy that demands 1 GPU and its ledger entry holds 2 GPUs: `load_profile` of a
+profile that is already loading charges the entry again and overwrites the recorded strategy. -/
+theorem profile_double_charge_counterexample :
+    lwf0 cxWorld2 = true ∧
+    (match ((ExceptT.run (do init; runK 8 : SimM Bool)).run cxWorld2).1 with | .ok false => true | _ => false) = true ∧
+    (let w := (((ExceptT.run (do init; runK 8 : SimM Bool)).run cxWorld2).2.pools[0]?).bind (fun p => p.workers[0]?)
+     w.map (fun w => w.pendProf) = some [(5, cxLoad)] ∧
+     w.map (fun w => (AList.get? w.res.allocs (.profile 5)).map (fun l => pairsByName l "GPU")) = some (some 2) ∧
+     byName cxLoad.req "GPU" = 1) := by
+  decide +kernel
+
 end ErdosVerif.C01
